@@ -58,12 +58,17 @@ func harvestStates(r *mon.Run) (states []*tls.SessionState) {
 		maxv  uint16
 		suite uint16
 		id    tls.ClientHelloID
+		// extra: the peers send a superfluous, unrelated second certificate, so that the
+		// state's certificate list is not a prefix of its verified chain (and the server
+		// asks for a client certificate: its states hold a client chain of that shape)
+		extra bool
 	}
 	var cfgs []cfg
 	for _, s := range []uint16{tls.TLS_ECDHE_ECDSA_WITH_AES_128_GCM_SHA256, tls.TLS_ECDHE_RSA_WITH_AES_256_GCM_SHA384, tls.TLS_ECDHE_RSA_WITH_CHACHA20_POLY1305_SHA256, tls.TLS_RSA_WITH_AES_128_CBC_SHA, tls.TLS_ECDHE_ECDSA_WITH_AES_128_CBC_SHA} {
-		cfgs = append(cfgs, cfg{tls.VersionTLS12, s, tls.HelloGolang})
+		cfgs = append(cfgs, cfg{tls.VersionTLS12, s, tls.HelloGolang, false})
 	}
-	cfgs = append(cfgs, cfg{tls.VersionTLS13, 0, tls.HelloGolang}, cfg{tls.VersionTLS13, 0, tls.HelloChrome_120}, cfg{tls.VersionTLS12, 0, tls.HelloFirefox_105}, cfg{tls.VersionTLS11, 0, tls.HelloGolang})
+	cfgs = append(cfgs, cfg{tls.VersionTLS13, 0, tls.HelloGolang, false}, cfg{tls.VersionTLS13, 0, tls.HelloChrome_120, false}, cfg{tls.VersionTLS12, 0, tls.HelloFirefox_105, false}, cfg{tls.VersionTLS11, 0, tls.HelloGolang, false},
+		cfg{tls.VersionTLS12, 0, tls.HelloGolang, true}, cfg{tls.VersionTLS13, 0, tls.HelloGolang, true}, cfg{tls.VersionTLS13, 0, tls.HelloChrome_120, true})
 	var mu sync.Mutex
 	for _, c := range cfgs {
 		scfg := peer.ServerConfig()
@@ -81,10 +86,24 @@ func harvestStates(r *mon.Run) (states []*tls.SessionState) {
 		cache := newMapCache()
 		ccfg.ClientSessionCache = cache
 		ccfg.MinVersion = tls.VersionTLS10
+		if c.extra {
+			f := peer.Fix()
+			other := f.CA.Leaf(peer.LeafOpts{Kind: "ecdsa", Names: []string{"unrelated.test"}})
+			sc := f.ECDSA
+			sc.Certificate = append(append([][]byte(nil), sc.Certificate...), other.Certificate[0])
+			scfg.Certificates = []tls.Certificate{sc}
+			cc := f.ECDSA
+			cc.Certificate = append(append([][]byte(nil), cc.Certificate...), other.Certificate[0])
+			ccfg.Certificates = []tls.Certificate{cc}
+			scfg.ClientAuth = tls.RequireAnyClientCert
+		}
 		h := peer.Run(ccfg, c.id, scfg, peer.Opts{})
 		if !h.OK() {
 			r.Note("harvest handshake failed: " + h.ErrString())
 			continue
+		}
+		if c.extra {
+			r.Count("states_with_a_superfluous_certificate", 1)
 		}
 		if cs := cache.Any(); cs != nil {
 			if _, st, _ := cs.ResumptionState(); st != nil {
